@@ -5,12 +5,17 @@ stdin, boots on the JSON persistence file, executes the steps and prints the obs
 import asyncio
 import datetime as _dt
 import importlib
+import io
 import json
 import logging
 import sys
 import warnings
 
+from fractions import Fraction
+from urllib.parse import urlsplit
+
 from tornado.httpclient import AsyncHTTPClient, HTTPClientError, HTTPResponse
+from tornado.httputil import HTTPHeaders
 
 from harness import vclock
 from harness.http_c10 import dispatch
@@ -31,14 +36,62 @@ class _VirtualDateTime(_dt.datetime):
         return _dt.datetime.fromtimestamp(t, tz)
 
 
+class SimSlave:
+    """A simulated qToggle slave device behind the stub HTTP client (only for `online` slave cases): it verifies the
+    Authorization header of every request with the standard library against ITS OWN current admin hash (the rules of
+    the code as found: iat optional), answers GET /device, GET /ports, PATCH /device (admin_password changes its
+    hash) and logs (header, its hash at that time, accepted?) for the oracle."""
+
+    def __init__(self, name, key, hub):
+        self.name = name
+        self.key = key
+        self.hub = hub
+        self.log = []
+        self.display_name = ''
+
+    def handle(self, request):
+        hub = self.hub
+        path = urlsplit(request.url).path.rstrip('/') or '/'
+        hdr = request.headers.get('Authorization')
+        now = Fraction(hub.now_ticks, hub.tps)
+        bad = ['no-header'] if not hdr else jf.strict(
+            hdr, user='admin', key=self.key, origin=hub.consts['ori_consumer'], iss=hub.consts['iss'], now=now,
+            skew=max(hub.settings.core.max_client_time_skew, 1))
+        lenient = [b for b in bad if b != 'iat-absent']
+        self.log.append([hdr, self.key, bad])
+        if lenient:
+            return 401, {'error': 'authentication-required'}
+        if request.method == 'GET' and path == '/device':
+            return 200, {'name': self.name, 'display_name': self.display_name, 'version': '1.0', 'api_version': '1.0',
+                         'vendor': 'verif/sim', 'admin_password': 'set', 'normal_password': '', 'viewonly_password': '',
+                         'flags': [], 'uptime': 1}
+        if request.method == 'GET' and path == '/ports':
+            return 200, []
+        if request.method == 'PATCH' and path == '/device':
+            body = json.loads(request.body or b'{}')
+            if 'admin_password' in body:
+                self.key = jf.pwhash(body['admin_password'])
+            if 'display_name' in body:
+                self.display_name = body['display_name']
+            return 204, None
+        return 404, {'error': 'no-such-function'}
+
+
 class CaptureHTTPClient(AsyncHTTPClient):
-    """Installed with tornado's public `AsyncHTTPClient.configure`: records the request the hub sends to a slave
-    and answers 599 (no network)."""
+    """Installed with tornado's public `AsyncHTTPClient.configure`: records the request the hub sends to a slave;
+    answers through the simulated slave when there is one, else 599 (no network)."""
     last = None
+    sim = None
 
     def fetch_impl(self, request, callback):
         CaptureHTTPClient.last = request
-        callback(HTTPResponse(request, 599, error=HTTPClientError(599, 'captured by the C10 harness')))
+        sim = CaptureHTTPClient.sim
+        if sim is None:
+            callback(HTTPResponse(request, 599, error=HTTPClientError(599, 'captured by the C10 harness')))
+            return
+        code, body = sim.handle(request)
+        buf = io.BytesIO(b'' if body is None else json.dumps(body).encode())
+        callback(HTTPResponse(request, code, headers=HTTPHeaders({'Content-Type': 'application/json'}), buffer=buf))
 
 
 class Hub:
@@ -95,6 +148,7 @@ class Hub:
             except Exception:
                 pass
             self.slave = None
+            CaptureHTTPClient.sim = None
         if fresh:
             # a case is one hub life: module-level state of the authentication module starts as in a new process,
             # so that cases (and the shrunk replays) do not depend on what the worker ran before
@@ -104,10 +158,42 @@ class Hub:
                 rec = {f'{u}_password_hash': v for u, v in state['disk'].items() if v != 'MISSING'}
                 await self.persist.set_value('device', rec)
         await self.restart()
+        CaptureHTTPClient.sim = None
         if state.get('slave'):
-            self.slave = await self.slaves_devices.add(
-                'http', '127.0.0.1', 1, '/', poll_interval=0, listen_enabled=False,
-                admin_password_hash=state['slave'], name='c10slave', enabled=False, attrs={'flags': []})
+            mode = state.get('smode') or 'offline'
+            kw = dict(poll_interval=0, listen_enabled=False, enabled=False, attrs={'flags': []})
+            if mode == 'poll':
+                kw.update(poll_interval=60)
+            elif mode == 'listen':
+                kw.update(listen_enabled=True, attrs={'flags': ['listen']})
+            elif mode == 'online':
+                CaptureHTTPClient.sim = SimSlave('c10slave', state['slave'], self)
+                kw.update(poll_interval=3600, enabled=True, attrs=None)
+            self.slave = await self.slaves_devices.add('http', '127.0.0.1', 1, '/', admin_password_hash=state['slave'],
+                                                       name='c10slave', **kw)
+            if mode == 'online':
+                for _ in range(2000):
+                    if self.slave.is_online() and self.slave.is_ready():
+                        break
+                    await asyncio.sleep(0)
+                else:
+                    raise RuntimeError('the simulated slave did not come online')
+                for _ in range(20):          # let the first polling pass finish (GET /ports)
+                    await asyncio.sleep(0)
+
+    def drain_simlog(self):
+        sim = CaptureHTTPClient.sim
+        if sim is None:
+            return []
+        out, sim.log = sim.log, []
+        return out
+
+    def slave_state(self):
+        """[hash the master holds for the slave (public accessor), the simulated slave's own hash]"""
+        if self.slave is None:
+            return None
+        sim = CaptureHTTPClient.sim
+        return [self.slave.get_admin_password_hash(), None if sim is None else sim.key]
 
     async def restart(self):
         """What a new process does to the password state: module attributes at their defaults, then device.load()."""
@@ -133,6 +219,15 @@ class Hub:
 
     # ------------------------------------------------------------------ steps
     async def exec(self, step, admin_key):
+        o = await self._exec(step, admin_key)
+        if CaptureHTTPClient.sim is not None:
+            for _ in range(5):
+                await asyncio.sleep(0)
+            o['simlog'] = self.drain_simlog()
+            o['slave_state'] = self.slave_state()
+        return o
+
+    async def _exec(self, step, admin_key):
         """Returns a JSON-able observation. `admin_key`: the hash the harness knows to be the current admin one
         (from the passwords it set itself), used for its own administrative requests."""
         kind = step[0]
@@ -193,6 +288,11 @@ class Hub:
                 pass
             req = CaptureHTTPClient.last
             return {'k': 'slavecall', 'hdr': None if req is None else req.headers.get('Authorization')}
+        if kind == 'spatch':
+            st, body = await dispatch(self.app, 'PATCH', '/api/devices/c10slave/forward/device',
+                                      {'Authorization': self._admin_header(admin_key), 'Content-Type': 'application/json'},
+                                      json.dumps(step[1]).encode())
+            return {'k': 'spatch', 'status': st, 'body': body.decode('utf-8', 'replace')}
         if kind == 'scan':
             ah = {'Authorization': self._admin_header(admin_key)}
             out = []
